@@ -114,7 +114,7 @@ theorem flushT_eq_ref (s : St) : s.flushT T = s.flushT refTables := by
 theorem flushCloseT_eq_ref (s : St) : s.flushCloseT T = s.flushCloseT refTables := by
   unfold St.flushCloseT; rw [fin_eq_ref hT]
 
-theorem stepActP_eq_ref (s : St) (b : UInt8) : stepActP T cfg s b = stepActP refTables cfg s b := by
+theorem stepActP_eq_ref (s : St) (i : Bool) (b : UInt8) : stepActP T cfg s i b = stepActP refTables cfg s i b := by
   unfold stepActP
   rw [act_eq_ref hT]
   cases hact : refTables.act s.mode b <;>
@@ -139,16 +139,17 @@ theorem stepActT_eq_ref (s : St) (b : UInt8) : stepActT T cfg s b = stepActT ref
 theorem deliver_eq_ref (s : St) : deliver T cfg s = deliver refTables cfg s := by
   unfold deliver; rw [fin_eq_ref hT]
 
-theorem stepCore_eq_ref (s : St) (b : UInt8) : stepCore T cfg s b = stepCore refTables cfg s b := by
+theorem stepCore_eq_ref (s : St) (f : Fast) (b : UInt8) : stepCore T cfg s f b = stepCore refTables cfg s f b := by
   unfold stepCore stepAct
   rw [stepActP_eq_ref hT, stepActT_eq_ref hT, act_eq_ref hT]
   simp only [deliver_eq_ref hT]
 
-theorem tokenEndFast_eq_ref (s : St) (b : UInt8) : tokenEndFast T cfg s b = tokenEndFast refTables cfg s b := by
+theorem tokenEndFast_eq_ref (s : St) (f : Fast) (b : UInt8) :
+    tokenEndFast T cfg s f b = tokenEndFast refTables cfg s f b := by
   unfold tokenEndFast
   simp only [deliver_eq_ref hT, stepCore_eq_ref hT]
 
-theorem step_eq_ref (s : St) (b : UInt8) (l : Bool) : step T cfg s b l = step refTables cfg s b l := by
+theorem step_eq_ref (s : St) (f : Fast) (b : UInt8) (l : Bool) : step T cfg s f b l = step refTables cfg s f b l := by
   unfold step
   rw [act_eq_ref hT]
   simp only [tokenEndFast_eq_ref hT, stepCore_eq_ref hT]
@@ -156,14 +157,15 @@ theorem step_eq_ref (s : St) (b : UInt8) (l : Bool) : step T cfg s b l = step re
 theorem cellFeat_eq_ref (s : St) (b : UInt8) : cellFeat T cfg s b = cellFeat refTables cfg s b := by
   unfold cellFeat; rw [act_eq_ref hT]
 
-theorem runBytes_eq_ref (s : St) (p : Pos) (bs : Bytes) : runBytes T cfg s p bs = runBytes refTables cfg s p bs := by
-  induction bs generalizing s p with
+theorem runBytes_eq_ref (s : St) (f : Fast) (p : Pos) (bs : Bytes) :
+    runBytes T cfg s f p bs = runBytes refTables cfg s f p bs := by
+  induction bs generalizing s f p with
   | nil => rfl
   | cons b r ih =>
     simp only [runBytes, step_eq_ref hT, cellFeat_eq_ref hT]
     split
     · rfl
-    · exact ih _ _
+    · exact ih _ _ _
 
 theorem runChunks_eq_ref (s : St) (p : Pos) (cs : List Bytes) :
     runChunks T cfg s p cs = runChunks refTables cfg s p cs := by
